@@ -37,7 +37,9 @@ type Allocator struct {
 
 // prefix must verify: containing.Mask.Size < prefix.Mask.Size < page
 func (a *Allocator) toIndex(base net.IP) (uint, error) {
-	value, err := allocators.Offset(base, a.containing.IP, a.page)
+	// Offset works on 128-bit addresses: a 4-byte form (accepted by Contains for a
+	// v4-mapped pool) must be widened first
+	value, err := allocators.Offset(base.To16(), a.containing.IP, a.page)
 	if err != nil {
 		return 0, fmt.Errorf("Cannot compute prefix index: %w", err)
 	}
